@@ -6,10 +6,9 @@ model  = lean/OfxModel/Ofx/{Lexer,Builder}.lean via the driver op `build`; `spec
          `Balanced` predicate on the model's token list
 oracle = the independent strict reference reader `gen.wire.ref_parse` (explicit name stack, no regex): the
          implementation returned a root (or None without raising) for a body the reference rejects.  The violation tag is
-         the reference's *first* well-formedness fault, so each known defect is matched narrowly:
-           unclosed_aggregate_at_eof, mismatched_end_tag, unmatched_markup_skipped, text_before_root_skipped,
-           empty_body_returns_none, greedy_cdata_swallows_markup (= the C02 finding seen from here: the faulted body has a
-           second ']]>' on the line of a CDATA section)  (known on the pinned tree)
+         the reference's *first* well-formedness fault, so each defect is matched narrowly:
+           unmatched_markup_skipped, text_before_root_skipped                       (known: finditer skips what it cannot match)
+           unclosed_aggregate_at_eof, mismatched_end_tag, empty_body_returns_none   (repaired in /repo; witnesses must pass)
            stray_end_tag_accepted, text_after_end_tag_accepted, text_after_root_accepted, second_root_accepted (never seen)
 """
 from framework import run_impl
@@ -40,7 +39,8 @@ FIXED = ["", " ", "\n\r\t ", "junk", "<", ">", "<a>", "<A", "A>", "</A>", "<A>",
          "<A></B>", "<A><B></A></B>", "<A></A></A>", "<A></A><B></B>", "<A></A>x", "x<A></A>", "<A><B>1</B>x</A>",
          "<A><B>1</B></A>x", "<A><B>1</b></A>", "<A><X><B>1</B></x></A>", "<A><B>1</B></A", "<A><B>1</B></", "<A><B>1</B><",
          "<A><B></B></A><C><D>", "<A>\n<B>\n<C>1\n</B>\n", "<A><B>1</B></A >", "<A><B>1</B></A></A>", "</A><A></A>",
-         "<OFX><STMTRS><BANKTRANLIST><STMTTRN><TRNAMT>1</STMTTRN></BANKTRANLIST>"]
+         "<OFX><STMTRS><BANKTRANLIST><STMTTRN><TRNAMT>1</STMTTRN></BANKTRANLIST>",
+         "<A><B><![CDATA[x]]></B></A><A><B><![CDATA[x]]></B></A>", "junk<A></A>"]
 
 
 def run(ctx):
@@ -87,8 +87,6 @@ def run(ctx):
             # ---- oracle ----
             if ref[0] == "reject" and (returned_root or returned_none):
                 tag = "empty_body_returns_none" if returned_none else REF2TAG[ref[1]]
-                if returned_root and wire.CDO in doc and not wire.cd_safe(doc):
-                    tag = "greedy_cdata_swallows_markup"
                 violate(tag, case,
                             f"body {doc[:80]!r} is not well-formed ({ref[1]}) but feed()+close() returned "
                             f"{'None without raising' if returned_none else 'a root'}",
@@ -122,8 +120,6 @@ def run(ctx):
         t = wire.strictify_abs(wire.random_abs(rng, tags, datas, max_nodes=rng.choice((2, 4, 7, 12))))
         wss = wire.WS_SMALL if rng.random() < 0.6 else wire.WS_RICH
         rt = wire.random_rt(rng, t, wss, p_cdata=rng.choice((0.0, 0.3)), strict=True)
-        if not wire.cd_safe(wire.rt_doc(rt)):
-            rt = wire.random_rt(rng, t, ["\n", "\r\n  "], p_cdata=0.3, strict=True)
         bases.append((rt, rng.choice(["", "", "\n", " "])))
     # small-scope: all trees <= 3 (thorough: 4) nodes, data x / a&amp;b, uniform styles
     top = 4 if ctx.thorough else 3
@@ -138,8 +134,6 @@ def run(ctx):
                           f"<= {top} nodes over {{A,B,C1}}")
     for rt, lead in bases:
         doc = wire.rt_doc(rt, lead)
-        if not wire.cd_safe(doc):
-            continue            # outside guard G1 of C02: not a body the pinned parser reads correctly in the first place
         add("valid", doc)
         for d in wire.truncations(doc):
             add("truncate", d)
